@@ -41,7 +41,35 @@ func main() {
 	mutant := flag.String("mutant", "", "internal: apply witness mutant with this id through an overlay")
 	replay := flag.String("replay", "", "re-decide only the obligation stored in this replay file")
 	list := flag.Bool("list", false, "list registered properties")
+	describe := flag.Bool("describe", false, "print the registered properties (decided clauses, assumptions, witness mutants) as JSON")
 	flag.Parse()
+
+	if *describe {
+		type mut struct {
+			ID, File, Note string
+			Expect         []string
+		}
+		type desc struct {
+			ID, Explain                 string
+			NotDecided, Assume, Trusted []string
+			Mutants                     []mut
+		}
+		var out []desc
+		for _, m := range registry {
+			d := desc{ID: m.ID, Explain: m.Explain, NotDecided: m.NotDecided, Assume: m.Assume, Trusted: m.Trusted}
+			for _, mu := range mutants {
+				if mu.Prop == m.ID {
+					d.Mutants = append(d.Mutants, mut{mu.ID, mu.File, mu.Note, mu.Expect})
+				}
+			}
+			out = append(out, d)
+		}
+		sort.Slice(out, func(i, j int) bool { return out[i].ID < out[j].ID })
+		enc := json.NewEncoder(os.Stdout)
+		enc.SetIndent("", " ")
+		_ = enc.Encode(out)
+		return
+	}
 
 	if *list {
 		ids := make([]string, 0, len(registry))
@@ -100,6 +128,7 @@ func main() {
 	if p != nil {
 		ri.Packages = len(p.Pkgs)
 		ri.Functions = p.nFuncs
+		ri.RepoFuncs = len(p.RepoFuncs())
 		if p.cg != nil {
 			n := 0
 			for _, nd := range p.cg.Nodes {
